@@ -200,20 +200,120 @@ def _finders(model, rep):
            "the fallback pass takes every cell as candidate", path,
            f"{clsn}.element_finder", "the fallback pass does not search all "
            "cells", line)
-    # 1-D
-    fn = model.func("skfem.mesh.mesh_line_1", "MeshLine1.element_finder")
-    inner = [n for n in nested_functions(fn.node)
-             if isinstance(n, ast.FunctionDef)]
-    f = inner[0]
-    g = [s for s in f.body if isinstance(s, ast.If)]
-    ok = (len(g) == 1 and src(g[0].test).replace(" ", "")
-          in ("len(elems)<len(x)", "len(elems)!=len(x)")
-          and isinstance(g[0].body[-1], ast.Raise)
-          and isinstance(f.body[-1], ast.Return))
-    _v(rep, R1, ok, "MeshLine1.finder:error-discipline",
-       "raises when fewer cells than points matched", fn.path,
-       "MeshLine1.element_finder", "points outside the interval do not "
-       "raise", f.lineno)
+    _line_finder(model, rep)
+
+
+def _line_finder(model, rep):
+    """1-D finder: it touches coordinates only through comparisons, sorting
+    and digitize (plus one mean of the two right-most vertices), so its
+    outcome depends on the order type of (vertices, query points) alone.
+    It is interpreted on exact representatives of every order type for
+    meshes of one to three cells: all vertex numberings, both orientations
+    of every cell, all cell orders; query points at every vertex, inside
+    every cell, left and right of the interval, alone and mixed."""
+    from itertools import permutations, product
+    from .. import nlite
+    from ..nlite import NArr
+    R1 = "C14-R1"
+    cls = model.cls("skfem.mesh.mesh_line_1", "MeshLine1")
+    fn = cls.methods.get("element_finder")
+    if fn is None:
+        raise AnalysisError("MeshLine1.element_finder not found")
+    q = "MeshLine1.element_finder"
+    ncfg = 0
+    first_bad: Dict[str, str] = {}
+
+    def meshes():
+        for k in (1, 2, 3):
+            cells = [(i, i + 1) for i in range(k)]       # in sorted positions
+            perms = list(permutations(range(k + 1)))
+            for vp in perms:
+                for flips in product((0, 1), repeat=k):
+                    yield k, vp, flips, tuple(range(k))
+            for cp in permutations(range(k)):
+                if cp != tuple(range(k)):
+                    yield k, tuple(range(k + 1)), (0,) * k, cp
+
+    for k, vp, flips, cp in meshes():
+        ncfg += 1
+        # vertex number vp[i] sits at coordinate i
+        coord = {vp[i]: Fraction(i) for i in range(k + 1)}
+        pdata = [[coord[v] for v in range(k + 1)]]
+        tcols = []
+        for c in cp:
+            a, b = vp[c], vp[c + 1]
+            tcols.append((b, a) if flips[c] else (a, b))
+        tdata = [[c[0] for c in tcols], [c[1] for c in tcols]]
+        span = [(min(coord[a], coord[b]), max(coord[a], coord[b]))
+                for a, b in tcols]
+        obj = Obj(cls, {"p": NArr(pdata), "t": NArr(tdata)})
+        it = Interp(model, call_hook=nlite.hook)
+        try:
+            finder = it.call(fn, [], {}, self_obj=obj)
+        except (Unsupported, Raised) as e:
+            raise AnalysisError(f"{q} outside grammar: {e}")
+        inside = [Fraction(i) for i in range(k + 1)] + \
+            [Fraction(2 * i + 1, 2) for i in range(k)]
+        outside = [Fraction(-1, 2), Fraction(2 * k + 1, 2), Fraction(-3),
+                   Fraction(k + 5)]
+        desc = f"{k} cell(s), vertex numbering {vp}, flips {flips}, " \
+               f"cell order {cp}"
+
+        def call(xs):
+            it2 = Interp(model, call_hook=nlite.hook)
+            try:
+                r = it2.apply(finder, [NArr(list(xs))], {}, fn.node)
+                return "ok", r
+            except Raised as e:
+                return "raised", e.what
+            except Unsupported as e:
+                raise AnalysisError(f"{q}.finder outside grammar: {e}")
+        st, r = call(inside)
+        if st != "ok":
+            first_bad.setdefault(
+                "inside", f"points of the interval make the finder raise "
+                f"({r}) on a mesh of {desc}")
+        else:
+            got = r.data if isinstance(r, NArr) else None
+            if got is None or len(got) != len(inside):
+                first_bad.setdefault(
+                    "inside", f"{len(inside)} points in, "
+                    f"{None if got is None else len(got)} cells out ({desc})")
+            else:
+                for x, c in zip(inside, got):
+                    if not (0 <= c < k and span[c][0] <= x <= span[c][1]):
+                        first_bad.setdefault(
+                            "inside", f"the point x = {x} is assigned to "
+                            f"cell {c} = [{span[c][0] if 0 <= c < k else '?'}"
+                            f", {span[c][1] if 0 <= c < k else '?'}] which "
+                            f"does not contain it ({desc})")
+                        break
+        for xo in outside:
+            for batch in ([xo], [inside[0], xo], [xo, inside[-1]],
+                          [inside[1 % len(inside)], xo, inside[0]]):
+                st, r = call(batch)
+                if st != "raised":
+                    side = "left" if xo < 0 else "right"
+                    first_bad.setdefault(
+                        "outside-" + side,
+                        f"the point x = {xo} to the {side} of the interval "
+                        f"[0, {k}] (queried as {[str(b) for b in batch]}) "
+                        f"does not raise but is assigned "
+                        f"{r.data if isinstance(r, NArr) else r} ({desc})")
+    for key in ("inside", "outside-left", "outside-right"):
+        cons = f"MeshLine1.finder:{key}"
+        if key in first_bad:
+            rep.fail(R1, fn.path, q, cons, first_bad[key], fn.lineno)
+        else:
+            rep.ok(R1, cons,
+                   {"inside": "every vertex and interior point is assigned "
+                    "a cell that contains it",
+                    "outside-left": "points left of the interval raise, "
+                    "alone or in a batch",
+                    "outside-right": "points right of the interval raise, "
+                    "alone or in a batch"}[key] +
+                   f" ({ncfg} order types of meshes with 1-3 cells)")
+    rep.units("1-D finder order types", ncfg)
 
 
 def _v(rep, rule, ok, cons, okmsg, path, qual, badmsg, line):
@@ -515,7 +615,21 @@ _QU = "skfem/mesh/mesh_quad_1.py"
 _HE = "skfem/mesh/mesh_hex_1.py"
 _WE = "skfem/mesh/mesh_wedge_1.py"
 _CB = "skfem/assembly/basis/cell_basis.py"
+_LN = "skfem/mesh/mesh_line_1.py"
 MUTANTS = [
+    ("1-D finder pulls every point right of the interval inside",
+     (_LN, "            xin[x == self.p[0, ix[-1]]] = ",
+      "            xin[x >= self.p[0, ix[-1]]] = "), "C14-R1"),
+    ("1-D finder moves the right end point into the first cell",
+     (_LN, "self.p[0, ix[-2:]].mean()", "self.p[0, ix[:2]].mean()"),
+     "C14-R1"),
+    ("1-D finder keys cells by their left vertex",
+     (_LN, "        maxt = self.t[np.argmax(self.p[0, self.t], 0),",
+      "        maxt = self.t[np.argmin(self.p[0, self.t], 0),"), "C14-R1"),
+    ("1-D finder assumes row 1 holds the right vertex",
+     (_LN, "        maxt = self.t[np.argmax(self.p[0, self.t], 0),\n"
+      "                      np.arange(self.t.shape[1])]",
+      "        maxt = self.t[1]"), "C14-R1"),
     ("triangle finder returns the nearest candidate instead of raising",
      (_TR, "                if _search_all:\n                    raise "
       "ValueError(\"Point is outside of the mesh.\")\n                "
@@ -574,6 +688,9 @@ MUTANTS = [
       "self._base_tensor_order)"), "C14-R3"),
 ]
 TWINS = [
+    ("1-D finder compares the counts with !=",
+     (_LN, "            if len(elems) < len(x):",
+      "            if len(elems) != len(x):")),
     ("finder containment written with the sum first",
      (_TR, "                      (1 - X[0] - X[1] >= -eps))",
       "                      (1 - (X[0] + X[1]) >= -eps))")),
